@@ -219,7 +219,12 @@ func runCrash(prop string) *ShardResult {
 	return res
 }
 
-func cfgName(c core.Config) string { return "seg" + itoa(c.SegSize) }
+func cfgName(c core.Config) string {
+	if c.EagerEOF {
+		return "seg" + itoa(c.SegSize) + "eof"
+	}
+	return "seg" + itoa(c.SegSize)
+}
 
 func itoa(i int) string {
 	if i == 0 {
